@@ -103,9 +103,9 @@ func c06Pass(env *lib.Env, rep *lib.Report, r *queryRunner, deep bool) {
 			{atoms: []qAtom{{qc(a, "k"), qc(b, "k"), "="}}},
 			{atoms: []qAtom{{qc(b, "k"), qc(a, "k"), "!="}}},
 			{atoms: []qAtom{{qc(a, "k"), qc(b, "k"), "<="}}},
-			// an unqualified name that only table t has: fine while t is in the chain once, ambiguous as soon as t is
-			// joined a second time (also when an earlier step of the chain has already resolved it)
-			{atoms: []qAtom{{qc(a, "k"), qc(b, "k"), "="}, {qc("", "p"), ql(int64(10)), ">="}}, ors: []bool{false}},
+			// an unqualified name that only the table being joined has: fine while that table is in the chain once,
+			// ambiguous as soon as it is joined a second time (also when an earlier step has already resolved it)
+			{atoms: []qAtom{{qc(a, "k"), qc(b, "k"), "="}, {qc("", kb), ql(int64(1)), ">"}}, ors: []bool{false}},
 			{atoms: []qAtom{{qc(a, "k"), qc(b, "k"), "="}, {qc(b, kb), ql(int64(1)), ">"}}, ors: []bool{false}},
 			{atoms: []qAtom{{qc(a, "k"), qc(b, "k"), "="}, {qc(a, "k"), ql(int64(2)), "="}}, ors: []bool{true}},
 			{atoms: []qAtom{{ql(int64(1)), ql(int64(1)), "="}}},
